@@ -51,10 +51,16 @@ theorem writeTo_len {st st' : S5} {n : Nat} (h : st.writeTo n = .ok st') : st'.b
 
 theorem np_replyWithStatus (st : S5) (status : UInt8) (h : 3 + Gen.C06.IPv4AddrLen ≤ st.b.length) :
     NoPanic (st.replyWithStatus status) := by
-  unfold S5.replyWithStatus setIdx
+  unfold S5.replyWithStatus
   simp only [Gen.C06.IPv4AddrLen] at h ⊢
-  go_np
-  all_goals (simp only [List.length_set, List.length_take] at *; omega)
+  have h10 : (List.take 10 st.b).length = 10 := by simp only [List.length_take]; omega
+  rw [sliceTo_of_le (by omega)]
+  simp only [ok_bind, setIdx, h10, List.length_set, ↓reduceIte, show (0:Nat) < 10 by omega,
+    show (1:Nat) < 10 by omega, show (2:Nat) < 10 by omega]
+  rw [sliceFrom_of_le (by simp only [List.length_set, h10]; omega)]
+  simp only [ok_bind]
+  rw [arr_of_le (by simp only [List.length_drop, List.length_set, h10]; omega)]
+  simp
 
 /-! #### the three handshake stages -/
 
@@ -132,7 +138,7 @@ theorem s5MethodSelection_len {method : Nat} {st st' : S5} (h : s5MethodSelectio
             obtain ⟨ms, _, h3⟩ := bind_eq_ok h3
             simp only [pure_eq, Outcome.ok.injEq, Prod.mk.injEq] at h3
             rw [← h3.1]; exact l2
-      dsimp only at h
+      try dsimp only at h
       split at h
       · obtain ⟨st4, _, h⟩ := bind_eq_ok h
         obtain ⟨_, _, h⟩ := bind_eq_ok h
@@ -197,7 +203,7 @@ theorem s5UsernamePassword_len {check : Bytes → Bytes → Bool} {st st' : S5} 
     split at h
     · simp at h
     · obtain ⟨ul, _, h⟩ := bind_eq_ok h
-      dsimp only at h
+      try dsimp only at h
       split at h
       · simp at h
       · obtain ⟨st2, h2, h⟩ := bind_eq_ok h
@@ -207,7 +213,7 @@ theorem s5UsernamePassword_len {check : Bytes → Bytes → Bool} {st st' : S5} 
           · simp only [pure_eq, Outcome.ok.injEq] at h2; rw [← h2]
         obtain ⟨uname, _, h⟩ := bind_eq_ok h
         obtain ⟨pl, _, h⟩ := bind_eq_ok h
-        dsimp only at h
+        try dsimp only at h
         split at h
         · simp at h
         · obtain ⟨st3, h3, h⟩ := bind_eq_ok h
